@@ -434,6 +434,11 @@ impl<T> Rc<T> {
             unsafe {
                 let val = ptr::read(&*this); // copy the contained object
 
+                // The allocation is given up without running `Drop`: remove
+                // it from the link tables of the `Rc`s it has adopted or been
+                // adopted by and destroy its own link table.
+                crate::drop::abandon_adoptions(&this);
+
                 // Indicate to Weaks that they can't be promoted by decrementing
                 // the strong count, and then remove the implicit "strong weak"
                 // pointer while also handling drop logic by just crafting a
@@ -895,6 +900,11 @@ impl<T: Clone> Rc<T> {
             unsafe {
                 let data: &mut MaybeUninit<T> = mem::transmute(Rc::get_mut_unchecked(&mut rc));
                 data.as_mut_ptr().copy_from_nonoverlapping(&**this, 1);
+
+                // The old allocation is given up without running `Drop`:
+                // remove it from the link tables of the `Rc`s it has adopted
+                // or been adopted by and destroy its own link table.
+                crate::drop::abandon_adoptions(this);
 
                 this.inner().dec_strong();
                 // Remove implicit strong-weak ref (no need to craft a fake
